@@ -698,6 +698,15 @@ func (x *Exec) execStmt(s *State, stmt ast.Stmt, entry *State) outcomes {
 		var vals []*Term
 		if len(st.Results) > 0 {
 			vals = x.evalRHS(s, st.Results, len(x.resultVars))
+			if len(st.Results) == len(x.resultVars) {
+				for i, re := range st.Results {
+					if id, ok := ast.Unparen(re).(*ast.Ident); ok {
+						if _, isNil := x.info.Uses[id].(*types.Nil); isNil {
+							vals[i] = x.u.zero(x.resultSorts[i])
+						}
+					}
+				}
+			}
 		}
 		x.doReturn(s, vals, entry, st.Pos())
 		return outcomes{}
@@ -785,9 +794,13 @@ func (x *Exec) define(s *State, id *ast.Ident, val *Term) {
 		return
 	}
 	v := obj.(*types.Var)
-	// heap struct values are copied on assignment
+	// heap struct values are copied on assignment (library struct values are immutable here: shared)
 	if x.isHeapStructType(v.Type()) && val.Sort == SRef {
-		val = x.copyHeapStruct(s, v.Type(), val)
+		if n := namedOf(v.Type()); n != nil {
+			if _, inRepo := x.u.Pkgs[pkgShort(n.Obj().Pkg())]; inRepo {
+				val = x.copyHeapStruct(s, v.Type(), val)
+			}
+		}
 	}
 	x.defineVar(s, v, withType(val, v.Type()))
 }
@@ -1206,6 +1219,12 @@ func (x *Exec) doReturn(s *State, vals []*Term, entry *State, pos token.Pos) {
 			label = fmt.Sprintf("%d", i+1)
 		}
 		goal := x.trBool(e.Expr, env)
+		if strings.HasPrefix(e.Label, "assumed") {
+			// a postcondition that links the code to an abstraction of a library data structure: used by callers,
+			// not checked against the body; listed among the assumptions
+			x.assumptions["postcondition "+x.fi.Name+"#"+e.Label+" is assumed, not checked against the body: "+e.Text] = true
+			continue
+		}
 		x.obligeSplit(s, "ensures", label+tag, goal, e.Text, e.Pos)
 		// later postconditions may use earlier ones (all of them must hold)
 		s.assume(goal)
